@@ -562,22 +562,43 @@ pub fn expand(repl: &[char], ngroups: usize, whole: &str, groups: &[String]) -> 
 }
 
 fn groups_pattern(rng: &mut Rng, ng: usize) -> Node {
-    // a pattern with exactly ng groups that matches runs of letters; some groups optional
+    groups_pattern_with_match(rng, ng).0
+}
+
+/// a pattern with exactly ng groups that matches runs of letters, and a string it matches; some
+/// groups optional, some quantified {0} / {0,0} (they still count as groups and keep their number,
+/// but never participate), some nested
+fn groups_pattern_with_match(rng: &mut Rng, ng: usize) -> (Node, String) {
     let letters = ['a', 'b', 'c'];
     let mut v = vec![];
-    for g in 0..ng {
+    let mut one = String::new();
+    let mut g = 0;
+    while g < ng {
         let c = Node::Char(letters[g % 3]);
-        let grp = Node::Group(Box::new(c));
-        if rng.chance(1, 4) {
-            v.push(Node::Repeat { body: Box::new(grp), min: 0, max: Some(1), greedy: true, spell: 0 });
-        } else {
-            v.push(grp);
+        let mut grp = Node::Group(Box::new(c));
+        let mut text = letters[g % 3].to_string();
+        if g + 1 < ng && rng.chance(1, 8) {
+            // nest the next group inside this one
+            g += 1;
+            grp = Node::Group(Box::new(Node::Cat(vec![Node::Char(letters[(g - 1) % 3]), Node::Group(Box::new(Node::Char(letters[g % 3])))])));
+            text.push(letters[g % 3]);
         }
+        match rng.below(8) {
+            0 | 1 => v.push(Node::Repeat { body: Box::new(grp), min: 0, max: Some(1), greedy: true, spell: 0 }),
+            2 => {
+                v.push(Node::Repeat { body: Box::new(grp), min: 0, max: Some(0), greedy: true, spell: if rng.chance(1, 2) { 2 } else { 1 } });
+                text.clear();
+            }
+            _ => v.push(grp),
+        }
+        one.push_str(&text);
+        g += 1;
     }
-    if ng == 0 || rng.chance(1, 3) {
+    if ng == 0 || one.is_empty() || rng.chance(1, 3) {
         v.push(Node::Char('x'));
+        one.push('x');
     }
-    Node::Cat(v)
+    (Node::Cat(v), one)
 }
 
 impl Monitor for C15 {
@@ -659,6 +680,16 @@ impl Monitor for C15 {
             };
             return Outcome::Violated(vec![Finding::new(kind, format!("{:?}", got), format!("{:?}", exp))]);
         }
+        // "a group that did not participate contributes nothing": analyze and replace_all read the
+        // same capture state, so participation itself is judged against the reference model (as in
+        // C03) whenever the replacement refers to a group
+        if nmatches > 0 && ng > 0 && valid_syntax && repl_s.contains('$') {
+            match super::refcheck::ref_check(c, obs, super::refcheck::Wants { groups: true, ..Default::default() }) {
+                Outcome::Violated(f) => return Outcome::Violated(f),
+                Outcome::Held => obs.count("group_participation_judged_by_reference"),
+                Outcome::Inconclusive(_) => {}
+            }
+        }
         if nmatches > 0 && (repl_s.contains('$') || repl_s.contains('\\')) {
             obs.nontrivial(c.key());
             if obs.want_sample() && valid_syntax {
@@ -677,16 +708,10 @@ impl Monitor for C15 {
         let mut pats = vec![];
         for ng in [0usize, 1, 2, 3, 9, 10, 12] {
             for _ in 0..2 {
-                let ast = groups_pattern(&mut rng, ng);
+                let (ast, one) = groups_pattern_with_match(&mut rng, ng);
                 let mut inputs = vec![];
                 for nm in [0usize, 1, 3] {
                     // build an input with nm matches: the pattern's own letters in order, separated by '-'
-                    let mut one = String::new();
-                    let letters = ['a', 'b', 'c'];
-                    for g in 0..ng {
-                        one.push(letters[g % 3]);
-                    }
-                    one.push('x');
                     let mut s = String::from("-");
                     for _ in 0..nm {
                         s.push_str(&one);
